@@ -6,6 +6,7 @@ def main():
     run = vlib.Run('C01')
     run.coq_gate()
     cp.proto_component_check(run, {'C01'}, run.n(350, 8000), run.n(150, 3000))
+    cp.glue_cases(run)
     run.rule = ('real ZMQReceiver / ZMQSender under the scripted simzmq world: 1-4 sources (all / * / explicit / remapped topics, '
                 "'?' and '??', balanced or not), publisher streams sharing an id sequence with loss, duplication, reordering, skipped "
                 'ids, restarts, control messages; every third history adversarial (non-monotone ids, truncated topic lists, illegal '
